@@ -12,7 +12,8 @@ CONSTANTS Comp = "multi"
   NBuf = 1
   Gaps <- G_none
   Strict = FALSE
-  D = 7
+  Busy = FALSE
+  D = 8
 INIT Init
 NEXT Next
 VIEW viewE
